@@ -94,6 +94,39 @@ def unit_kinds(a):
     return stats
 
 
+def unit_long_runs(a):
+    """long runs of tag / comment / blank lines behind a tag line: every buffered line must still reach the builder, in order"""
+    from .c02 import LONG_PREFIXES
+    stats = Stats()
+
+    def gen():
+        pats = {"tags": lambda i: "TagLine", "comments": lambda i: "Comment", "blanks": lambda i: "Empty", "mixed": lambda i: ("TagLine", "Comment", "Empty")[i % 3]}
+        k = 0
+        for name, pre in LONG_PREFIXES.items():
+            for n in a["lengths"]:
+                for pn, f in pats.items():
+                    k += 1
+                    if k % a["nshards"] != a["shard"]:
+                        continue
+                    for term in (["ScenarioLine"], ["ExamplesLine"], ["RuleLine"], ["Other"], []):
+                        yield {"sub": "kinds", "kinds": pre + ["TagLine"] + [f(i) for i in range(n)] + term, "npre": len(pre)}
+    sweep(stats, gen(), check_kinds)
+    return stats
+
+
+def unit_long_text(a):
+    stats = Stats()
+    texts = []
+    for n in a["lengths"]:
+        for filler in (" @t%d\n", " # c%d\n", "\n", " @a%d @b\n # c\n\n"):
+            run = "".join((filler % i) if "%d" in filler else filler for i in range(n))
+            texts.append("Feature: f\n Scenario: s\n  Given x\n @first\n" + run + " Scenario: t\n  Given y\n")
+            texts.append("Feature: f\n Scenario Outline: s\n  Given <a>\n @first\n" + run + " Examples:\n  | a |\n  | 1 |\n")
+            texts.append("Feature: f\n Background:\n  Given x\n @first\n" + run + " Rule: r\n  Scenario: t\n")
+    sweep(stats, [{"sub": "text", "text": t, "label": "long-run"} for t in texts], check_text)
+    return stats
+
+
 # ------------------------------------------------------------------ (b) real text
 def check_text(case, stats):
     text, dflt = case["text"], case.get("default", "en")
@@ -203,6 +236,8 @@ def run(ctx):
     ns = 16
     ctx.units("golden-token-listings", unit_golden, [{}])
     ctx.units("kind-sequences-exhaustive", unit_kinds, [{"L": L, "shard": i, "nshards": ns} for i in range(ns)], procs=ns)
+    ctx.units("long-lookahead-runs", unit_long_runs, [{"lengths": list(range(0, 34)) + [64, 128, 129, 256, 257] + ([] if q else [1024, 1025, 4096]), "shard": i, "nshards": 16} for i in range(16)], procs=16)
+    ctx.units("long-lookahead-text", unit_long_text, [{"lengths": list(range(0, 20)) + [31, 32, 33, 64, 128, 256] + ([] if q else [1000, 3000])}])
     ctx.units("after-aborted-parse", unit_prev_combos, [{}])
     ctx.units("real-text", unit_noisy, [{"n": 500 if q else 8000, "seed": ctx.seed, "shard": i} for i in range(4 if q else 16)], procs=16)
     ctx.units("model-token-listings", unit_listing, [{"n": 400 if q else 5000, "seed": ctx.seed, "shard": i} for i in range(4 if q else 16)], procs=16)
